@@ -109,4 +109,17 @@ PROPS = {
         "trusted_base": COMMON_TB,
         "assumptions": ["controller repositories and caller-pinned initial root principals are not generated"],
     },
+    "C11": {
+        "test": "TestC11",
+        "lean_modules": ["Gittuf.Props.C11"],
+        "n": {"quick": 16, "thorough": 400},
+        "min_per_shard": 4,
+        "rule": "histories as for C01 under policies that combine delegation rules with 0-2 global rules (threshold 1..3 over the verified "
+                "reference, over all branches, over an unrelated reference; block-force-pushes over all branches or one branch); every "
+                "history is rebuilt on a second repository with all global rules removed and verified again with the real verifier "
+                "(monotonicity); the additive part (enough distinct authenticated principals, descent from the previous unskipped "
+                "state) is evaluated declaratively on every accepted verification; the Lean model must reproduce every verdict.",
+        "trusted_base": COMMON_TB,
+        "assumptions": ["controller-declared global rules are not generated (only the repository's own root)"],
+    },
 }
